@@ -341,6 +341,22 @@ func (fx *FuncCtx) binop(st *State, op token.Token, l, r Val, lt, rt types.Type,
 		if !ok {
 			break
 		}
+		if lv.Lit != nil && rv.Lit != nil {
+			switch op {
+			case token.EQL:
+				if *lv.Lit == *rv.Lit {
+					return tTrue
+				}
+				return tFalse
+			case token.NEQ:
+				if *lv.Lit != *rv.Lit {
+					return tTrue
+				}
+				return tFalse
+			case token.ADD:
+				return fx.strLit(*lv.Lit + *rv.Lit)
+			}
+		}
 		switch op {
 		case token.EQL:
 			return Eq(lv.ID, rv.ID)
@@ -736,6 +752,9 @@ func (fx *FuncCtx) memRead(st *State, sv SliceV, idx Term) Val {
 	m := fx.heapGet(st, name, fx.memSort(sv.Elem))
 	t := Select(Select(m, sv.Rid, ArraySort(SInt, es)), Add(sv.Off, idx), es)
 	if k, ok := intInfo(sv.Elem); ok {
+		if fx.inQuant > 0 {
+			return t
+		}
 		// typing fact for the loaded integer
 		d := fx.define("ld", t)
 		st.assume(k.rangeOf(d))
@@ -794,6 +813,11 @@ func (fx *FuncCtx) evalIndex(st *State, x *ast.IndexExpr) Val {
 	case StrV:
 		idx := fx.evalTerm(st, x.Index)
 		fx.oblige(st, "idx", And(Ge(idx, IntLit(0)), Lt(idx, b.Len)), x, "")
+		if b.Lit != nil {
+			if n, ok := isIntLit(idx); ok && n >= 0 && int(n) < len(*b.Lit) {
+				return IntLit(int64((*b.Lit)[n]))
+			}
+		}
 		fx.declFun("strat", []Sort{SStr, SInt}, SInt)
 		c := app(SInt, "strat", b.ID, idx)
 		st.assume(And(Ge(c, IntLit(0)), Lt(c, IntLit(256))))
@@ -850,6 +874,13 @@ func (fx *FuncCtx) evalSliceExpr(st *State, x *ast.SliceExpr) Val {
 			hi = fx.evalTerm(st, x.High)
 		}
 		fx.oblige(st, "slice", And(Ge(lo, IntLit(0)), Le(lo, hi), Le(hi, b.Len)), x, "")
+		if b.Lit != nil {
+			l, ok1 := isIntLit(lo)
+			h, ok2 := isIntLit(hi)
+			if ok1 && ok2 && 0 <= l && l <= h && int(h) <= len(*b.Lit) {
+				return fx.strLit((*b.Lit)[l:h])
+			}
+		}
 		fx.declFun("substr", []Sort{SStr, SInt, SInt}, SStr)
 		return StrV{ID: app(SStr, "substr", b.ID, lo, hi), Len: Sub(hi, lo)}
 	case ArrayV, PtrV:
